@@ -262,6 +262,14 @@ def run_job(ctx, job):
     elif job["part"] == "gen":
         @st.composite
         def cases(draw):
+            if draw(st.integers(0, 5)) == 0:
+                # Logix structure layouts (members at template offsets, BOOLs packed into hidden or visible hosts), also as array elements
+                t = draw(C.structtags())
+                v = draw(C.structtag_values(t))
+                if draw(st.booleans()):
+                    n = draw(st.integers(2, 3))
+                    t, v = T("array", len=n, el=t, via="factory"), [v] + [draw(C.structtag_values(t)) for _ in range(n - 1)]
+                return {"t": t, "v": v}
             t = draw(C.types(depth=draw(st.integers(0, 2))))
             v = draw(C.values(t))
             return {"t": t, "v": v}
